@@ -18,8 +18,12 @@ t=$(cd $wt && go test -count=1 ./... 2>&1 | grep -c "^FAIL\|^---")
 echo "repo tests failing lines: $t"
 (cd $wt && go build -o /tmp/seedv/bin.$$.mut ./cmd/calc)
 if [ -f $out/demo$n.calc ]; then
-  echo "--- demo WITHOUT the change:"; timeout 900 /tmp/seedv/bin.$$.orig $out/demo$n.calc 2>&1 | head -${LINES_MAX:-12}
-  echo "--- demo WITH the change:"; timeout 900 /tmp/seedv/bin.$$.mut $out/demo$n.calc 2>&1 | head -${LINES_MAX:-12}
+  inp=/dev/null; [ -f $out/demo$n.input ] && inp=$out/demo$n.input
+  timeout 300 /tmp/seedv/bin.$$.orig $out/demo$n.calc < $inp > /tmp/seedv/bin.$$.o1 2>&1; r1=$?
+  timeout 300 /tmp/seedv/bin.$$.mut $out/demo$n.calc < $inp > /tmp/seedv/bin.$$.o2 2>&1; r2=$?
+  if cmp -s /tmp/seedv/bin.$$.o1 /tmp/seedv/bin.$$.o2 && [ $r1 = $r2 ]; then echo "DEMO-DIFFERS: no"; else echo "DEMO-DIFFERS: yes (exit $r1 without, $r2 with)"; fi
+  echo "--- demo WITHOUT the change:"; head -${LINES_MAX:-12} /tmp/seedv/bin.$$.o1 | cut -c1-200
+  echo "--- demo WITH the change:"; head -${LINES_MAX:-12} /tmp/seedv/bin.$$.o2 | cut -c1-200
 elif ls $out/demo${n}_test.go >/dev/null 2>&1 || ls $out/demo$n.go >/dev/null 2>&1; then
   echo "(Go demo: see demo$n.txt)"; sed -n 1,25p $out/demo$n.txt
 fi
